@@ -502,12 +502,19 @@ struct Ctx {
     /// generic functions whose instantiation was abandoned because its type arguments are
     /// larger than MAX_INSTANCE_TYPE_SIZE (polymorphic recursion)
     too_deep: IndexSet<String>,
+    /// how many instances each generic function has been given so far
+    instance_counts: IndexMap<String, usize>,
 }
 
 /// A function that calls itself at an ever larger type (`f[T]` calling `f[(T, T)]`) has no finite
 /// set of instances. Like other compilers that specialise generics, give up on an instance whose
 /// type arguments grow beyond this many type constructors and report it.
 const MAX_INSTANCE_TYPE_SIZE: usize = 512;
+
+/// Two recursive calls at two different larger types double the number of instances with every
+/// level, long before any type argument is large: the number of instances of one generic
+/// function is bounded as well.
+const MAX_INSTANCES_PER_FUNCTION: usize = 4096;
 
 fn ty_size(ty: &Ty) -> usize {
     match ty {
@@ -546,6 +553,7 @@ impl Ctx {
             work: VecDeque::new(),
             inherent_method_index,
             too_deep: IndexSet::new(),
+            instance_counts: IndexMap::new(),
         }
     }
 
@@ -559,7 +567,11 @@ impl Ctx {
         let spec = spec_name_for(name, &s);
         self.instances
             .insert((name.to_string(), key.clone()), spec.clone());
-        if s.values().any(|ty| ty_size(ty) > MAX_INSTANCE_TYPE_SIZE) {
+        let count = self.instance_counts.entry(name.to_string()).or_insert(0);
+        *count += 1;
+        if *count > MAX_INSTANCES_PER_FUNCTION
+            || s.values().any(|ty| ty_size(ty) > MAX_INSTANCE_TYPE_SIZE)
+        {
             // not queued: the caller refers to an instance that is never generated, and the
             // compilation is reported as failed
             self.too_deep.insert(name.to_string());
